@@ -824,6 +824,13 @@ def run(prop, seed, budget, ctx):
         df, dn, dd, dh = run_discr(seed, budget, want={"C13": ("dispatch", "roundtrip", "tagged"), "C03": ("purity",), "C14": ("coerce",)}[prop])
         failures += df; distinct |= dd
         for k, v in dh.items(): hist["discriminated:" + k] += v
+        if prop == "C13":
+            # what the selected alternative *raises* (exceptions of the user's converters / validators) is what the union raises
+            import exc_masking
+            ef, en, ed, eh = exc_masking.run_part(seed, budget)
+            failures += ef; distinct |= ed; dn += en
+            for k_, v_ in eh.items(): hist[k_] += v_
+            for f in ef: hist["P:" + f["why"][0]] += 1
         if prop == "C03":
             # classes with validators (the error path runs the validators that can still run, on a mock of the object): whatever the data, a value or a ValidationError
             import engine_validate
